@@ -18,8 +18,8 @@ fn u1_inc_strong_returns() {
     kani::assume(s != 0 && s != MAX && s != MAX - 1);
     set_counts(&a, s, w);
     a.inner().inc_strong();
-    assert!(a.inner().strong() == s + 1, "U1.inc_strong.post.plus_one");
-    assert!(a.inner().weak() == w, "U1.inc_strong.frame.weak");
+    kani::assert(a.inner().strong() == s + 1, "U1.inc_strong.post.plus_one");
+    kani::assert(a.inner().weak() == w, "U1.inc_strong.frame.weak");
     core::mem::forget(a);
 }
 
@@ -42,8 +42,8 @@ fn u1_dec_strong() {
     kani::assume(s >= 1);
     set_counts(&a, s, w);
     a.inner().dec_strong();
-    assert!(a.inner().strong() == s - 1, "U1.dec_strong.post.minus_one");
-    assert!(a.inner().weak() == w, "U1.dec_strong.frame.weak");
+    kani::assert(a.inner().strong() == s - 1, "U1.dec_strong.post.minus_one");
+    kani::assert(a.inner().weak() == w, "U1.dec_strong.frame.weak");
     core::mem::forget(a);
 }
 
@@ -54,8 +54,8 @@ fn u1_inc_weak_returns() {
     kani::assume(w != 0 && w != MAX);
     set_counts(&a, s, w);
     a.inner().inc_weak();
-    assert!(a.inner().weak() == w + 1, "U1.inc_weak.post.plus_one");
-    assert!(a.inner().strong() == s, "U1.inc_weak.frame.strong");
+    kani::assert(a.inner().weak() == w + 1, "U1.inc_weak.post.plus_one");
+    kani::assert(a.inner().strong() == s, "U1.inc_weak.frame.strong");
     core::mem::forget(a);
 }
 
@@ -77,8 +77,8 @@ fn u1_dec_weak() {
     kani::assume(w >= 1);
     set_counts(&a, s, w);
     a.inner().dec_weak();
-    assert!(a.inner().weak() == w - 1, "U1.dec_weak.post.minus_one");
-    assert!(a.inner().strong() == s, "U1.dec_weak.frame.strong");
+    kani::assert(a.inner().weak() == w - 1, "U1.dec_weak.post.minus_one");
+    kani::assert(a.inner().strong() == s, "U1.dec_weak.frame.strong");
     core::mem::forget(a);
 }
 
@@ -87,13 +87,13 @@ fn u1_predicates() {
     let a = Rc::new(0u8);
     let (s, w) = any_counts();
     set_counts(&a, s, w);
-    assert!(a.inner().strong() == s, "U1.strong.reads_strong_cell");
-    assert!(a.inner().weak() == w, "U1.weak.reads_weak_cell");
-    assert!(a.inner().is_uninit() == (s == MAX), "U1.is_uninit.iff_sentinel");
-    assert!(a.inner().is_dead() == (s == 0 || s == MAX), "U1.is_dead.iff_zero_or_sentinel");
+    kani::assert(a.inner().strong() == s, "U1.strong.reads_strong_cell");
+    kani::assert(a.inner().weak() == w, "U1.weak.reads_weak_cell");
+    kani::assert(a.inner().is_uninit() == (s == MAX), "U1.is_uninit.iff_sentinel");
+    kani::assert(a.inner().is_dead() == (s == 0 || s == MAX), "U1.is_dead.iff_zero_or_sentinel");
     a.inner().make_uninit();
-    assert!(a.inner().strong() == MAX, "U1.make_uninit.sets_sentinel");
-    assert!(a.inner().weak() == w, "U1.make_uninit.frame.weak");
+    kani::assert(a.inner().strong() == MAX, "U1.make_uninit.sets_sentinel");
+    kani::assert(a.inner().weak() == w, "U1.make_uninit.frame.weak");
     core::mem::forget(a);
 }
 
@@ -104,10 +104,10 @@ fn u1_implementors_agree() {
     let (s, w) = any_counts();
     set_counts(&a, s, w);
     let l = crate::link::Link::forward(a.ptr);
-    assert!(l.strong() == s && l.weak() == w, "U1.link_impl.same_cells");
+    kani::assert(l.strong() == s && l.weak() == w, "U1.link_impl.same_cells");
     let wk = Weak { ptr: a.ptr, phantom: PhantomData };
     let wi = wk.inner().unwrap();
-    assert!(wi.strong() == s && wi.weak() == w, "U1.weakinner_impl.same_cells");
+    kani::assert(wi.strong() == s && wi.weak() == w, "U1.weakinner_impl.same_cells");
     core::mem::forget(wk);
     core::mem::forget(a);
 }
@@ -128,15 +128,15 @@ fn u7_upgrade() {
     let wk = weak_of(&a);
     let r = wk.upgrade();
     if s == 0 || s == MAX {
-        assert!(r.is_none(), "U7.upgrade.none_iff_dead");
-        assert!(a.inner().strong() == s && a.inner().weak() == w, "U7.upgrade.none_writes_nothing");
+        kani::assert(r.is_none(), "U7.upgrade.none_iff_dead");
+        kani::assert(a.inner().strong() == s && a.inner().weak() == w, "U7.upgrade.none_writes_nothing");
     } else {
-        assert!(r.is_some(), "U7.upgrade.some_iff_live");
+        kani::assert(r.is_some(), "U7.upgrade.some_iff_live");
         if let Some(rc) = &r {
-            assert!(rc.ptr == a.ptr, "U7.upgrade.same_allocation");
+            kani::assert(rc.ptr == a.ptr, "U7.upgrade.same_allocation");
         }
-        assert!(a.inner().strong() == s + 1, "U7.upgrade.strong_plus_one");
-        assert!(a.inner().weak() == w, "U7.upgrade.frame.weak");
+        kani::assert(a.inner().strong() == s + 1, "U7.upgrade.strong_plus_one");
+        kani::assert(a.inner().weak() == w, "U7.upgrade.frame.weak");
     }
     core::mem::forget(r);
     core::mem::forget(wk);
@@ -166,10 +166,10 @@ fn u7_weak_counts() {
     let wk = weak_of(&a);
     let sc = wk.strong_count();
     let wc = wk.weak_count();
-    assert!(sc == (if s == MAX { 0 } else { s }), "U7.weak_strong_count.zero_iff_gone_else_strong");
+    kani::assert(sc == (if s == MAX { 0 } else { s }), "U7.weak_strong_count.zero_iff_gone_else_strong");
     let want = if s == MAX || s == 0 { 0 } else { w - 1 };
-    assert!(wc == want, "U7.weak_weak_count.zero_when_dead_else_weak_minus_implicit");
-    assert!(a.inner().strong() == s && a.inner().weak() == w, "U7.weak_counts.read_only");
+    kani::assert(wc == want, "U7.weak_weak_count.zero_when_dead_else_weak_minus_implicit");
+    kani::assert(a.inner().strong() == s && a.inner().weak() == w, "U7.weak_counts.read_only");
     core::mem::forget(wk);
     core::mem::forget(a);
 }
@@ -184,8 +184,8 @@ fn u7_weak_drop_keeps_allocation() {
     let wk = weak_of(&a);
     drop(wk);
     // still allocated: these reads are checked by CBMC's pointer checks
-    assert!(a.inner().weak() == w - 1, "U7.weak_drop.weak_minus_one");
-    assert!(a.inner().strong() == s, "U7.weak_drop.frame.strong");
+    kani::assert(a.inner().weak() == w - 1, "U7.weak_drop.weak_minus_one");
+    kani::assert(a.inner().strong() == s, "U7.weak_drop.frame.strong");
     core::mem::forget(a);
 }
 
@@ -201,7 +201,7 @@ fn u7_weak_drop_releases_last() {
     // Probe: this read must be refuted by CBMC as a use of a deallocated object (the registry
     // expects exactly that failure and nothing else), which shows the allocation was released.
     let probe = unsafe { *(p as *const usize) };
-    assert!(probe == 0 || probe != 0, "PROBE-AFTER-RELEASE");
+    kani::assert(probe == 0 || probe != 0, "PROBE-AFTER-RELEASE");
 }
 
 /// dangling Weak (Weak::new): inert in every operation
@@ -209,11 +209,11 @@ fn u7_weak_drop_releases_last() {
 fn u7_weak_new_inert() {
     let wk: Weak<u8> = Weak::new();
     let up = wk.upgrade();
-    assert!(up.is_none(), "U7.weak_new.upgrade_none");
+    kani::assert(up.is_none(), "U7.weak_new.upgrade_none");
     core::mem::forget(up);
-    assert!(wk.strong_count() == 0 && wk.weak_count() == 0, "U7.weak_new.counts_zero");
+    kani::assert(wk.strong_count() == 0 && wk.weak_count() == 0, "U7.weak_new.counts_zero");
     let c = wk.clone();
-    assert!(c.ptr_eq(&wk), "U7.weak_new.clone_ptr_eq");
+    kani::assert(c.ptr_eq(&wk), "U7.weak_new.clone_ptr_eq");
     drop(c);
     drop(wk);
 }
@@ -227,19 +227,19 @@ fn u7_handle_creation() {
     kani::assume(w != 0 && w < MAX - 1);
     set_counts(&a, s, w);
     let c = a.clone();
-    assert!(c.ptr == a.ptr, "U7.clone.same_allocation");
-    assert!(a.inner().strong() == s + 1 && a.inner().weak() == w, "U7.clone.strong_plus_one_only");
-    assert!(Rc::ptr_eq(&a, &c), "U7.ptr_eq.same_allocation_true");
-    assert!(Rc::as_ptr(&a) == Rc::as_ptr(&c), "U7.as_ptr.agree");
+    kani::assert(c.ptr == a.ptr, "U7.clone.same_allocation");
+    kani::assert(a.inner().strong() == s + 1 && a.inner().weak() == w, "U7.clone.strong_plus_one_only");
+    kani::assert(Rc::ptr_eq(&a, &c), "U7.ptr_eq.same_allocation_true");
+    kani::assert(Rc::as_ptr(&a) == Rc::as_ptr(&c), "U7.as_ptr.agree");
     let d = Rc::downgrade(&a);
-    assert!(d.ptr == a.ptr, "U7.downgrade.same_allocation");
-    assert!(a.inner().strong() == s + 1 && a.inner().weak() == w + 1, "U7.downgrade.weak_plus_one_only");
+    kani::assert(d.ptr == a.ptr, "U7.downgrade.same_allocation");
+    kani::assert(a.inner().strong() == s + 1 && a.inner().weak() == w + 1, "U7.downgrade.weak_plus_one_only");
     let d2 = d.clone();
-    assert!(d2.ptr == a.ptr && d2.ptr_eq(&d), "U7.weak_clone.same_allocation");
-    assert!(a.inner().strong() == s + 1 && a.inner().weak() == w + 2, "U7.weak_clone.weak_plus_one_only");
-    assert!(Rc::strong_count(&a) == s + 1, "U7.strong_count.is_strong");
-    assert!(Rc::weak_count(&a) == w + 2 - 1, "U7.weak_count.is_weak_minus_implicit");
-    assert!(d.as_ptr() == Rc::as_ptr(&a), "U7.weak_as_ptr.agrees_with_rc");
+    kani::assert(d2.ptr == a.ptr && d2.ptr_eq(&d), "U7.weak_clone.same_allocation");
+    kani::assert(a.inner().strong() == s + 1 && a.inner().weak() == w + 2, "U7.weak_clone.weak_plus_one_only");
+    kani::assert(Rc::strong_count(&a) == s + 1, "U7.strong_count.is_strong");
+    kani::assert(Rc::weak_count(&a) == w + 2 - 1, "U7.weak_count.is_weak_minus_implicit");
+    kani::assert(d.as_ptr() == Rc::as_ptr(&a), "U7.weak_as_ptr.agrees_with_rc");
     core::mem::forget((c, d, d2, a));
 }
 
@@ -247,21 +247,21 @@ fn u7_handle_creation() {
 fn u7_identity() {
     let a = Rc::new(1u8);
     let b = Rc::new(1u8);
-    assert!(!Rc::ptr_eq(&a, &b), "U7.ptr_eq.distinct_allocations_false");
-    assert!(Rc::as_ptr(&a) != Rc::as_ptr(&b), "U7.as_ptr.distinct");
+    kani::assert(!Rc::ptr_eq(&a, &b), "U7.ptr_eq.distinct_allocations_false");
+    kani::assert(Rc::as_ptr(&a) != Rc::as_ptr(&b), "U7.as_ptr.distinct");
     let (s, w) = any_counts();
     set_counts(&a, s, w);
     let pa = a.ptr;
     let raw = Rc::into_raw(a);
     let a2 = unsafe { Rc::from_raw(raw) };
-    assert!(a2.ptr == pa, "U7.raw_roundtrip.same_allocation");
-    assert!(a2.inner().strong() == s && a2.inner().weak() == w, "U7.raw_roundtrip.counts_untouched");
-    assert!(unsafe { *raw } == 1, "U7.into_raw.points_at_value");
+    kani::assert(a2.ptr == pa, "U7.raw_roundtrip.same_allocation");
+    kani::assert(a2.inner().strong() == s && a2.inner().weak() == w, "U7.raw_roundtrip.counts_untouched");
+    kani::assert(unsafe { *raw } == 1, "U7.into_raw.points_at_value");
     let wk = weak_of(&a2);
     let wraw = wk.into_raw();
-    assert!(wraw == raw, "U7.weak_into_raw.points_at_value");
+    kani::assert(wraw == raw, "U7.weak_into_raw.points_at_value");
     let wk2 = unsafe { Weak::from_raw(wraw) };
-    assert!(wk2.ptr == pa, "U7.weak_raw_roundtrip.same_allocation");
-    assert!(a2.inner().strong() == s && a2.inner().weak() == w, "U7.weak_raw_roundtrip.counts_untouched");
+    kani::assert(wk2.ptr == pa, "U7.weak_raw_roundtrip.same_allocation");
+    kani::assert(a2.inner().strong() == s && a2.inner().weak() == w, "U7.weak_raw_roundtrip.counts_untouched");
     core::mem::forget((wk2, a2, b));
 }
